@@ -86,3 +86,52 @@ package core
 //@   ensures [index] height < chain.count ==> result != nil && bytes(result.Id) == @decId(@select(@select(ghost(kv), ref(chain.groups)), @select(@gids, height))) && result.GroupHeight == height
 //@   ensures [above] height >= chain.count ==> result == nil
 //@   modifies nothing
+
+// ---------------------------------------------------------------------------------------------
+// Fork choice (C05). Chain weight: cumulative QN first; at equal QN the chain whose block after the fork
+// point has the greater prove value wins, and at equal prove values the greater block hash (as an unsigned
+// big-endian integer). The head is only replaced by a block of a chain that is not lighter.
+
+//@ func chainPvGreatThanRemote
+//@   property C05
+//@   requires chainNextBlock != nil && remoteBlock != nil && chainNextBlock.ProveValue != nil && remoteBlock.ProveValue != nil && logger != nil
+//@   ensures [order] result == (big(chainNextBlock.ProveValue) > big(remoteBlock.ProveValue) || (big(chainNextBlock.ProveValue) == big(remoteBlock.ProveValue) && @beval(bytes(chainNextBlock.Hash)) > @beval(bytes(remoteBlock.Hash))))
+//@   modifies nothing
+
+// The storage and verification steps around the decision (LevelDB, caches, group signature and state checks):
+// trusted to touch the head only where stated.
+//@ func blockChain.HasBlockByHash
+//@   option trusted
+//@   modifies nothing
+
+//@ func blockChain.verifyBlock
+//@   option trusted
+//@   modifies nothing
+
+//@ func blockChain.queryBlockHeaderByHash
+//@   option trusted
+//@   ensures result != nil ==> fresh(result)
+//@   modifies nothing
+
+//@ func blockChain.QueryBlockHeaderByHeight
+//@   option trusted
+//@   ensures result != nil ==> fresh(result) && result.ProveValue != nil
+//@   modifies nothing
+
+//@ func blockChain.insertBlock
+//@   option trusted
+//@   requires chain != nil && remoteBlock != nil
+//@   modifies chain.latestBlock
+
+//@ func blockChain.removeFromCommonAncestor
+//@   option trusted
+//@   requires chain != nil
+//@   ensures chain.latestBlock != nil
+//@   modifies chain.latestBlock
+
+// A coming block that does not extend the head and belongs to a lighter chain leaves the head alone: lower
+// cumulative QN, or equal QN with the local block after the fork point winning the tie-break.
+//@ func blockChain.addBlockOnChain
+//@   property C05
+//@   requires chain != nil && chain.latestBlock != nil && coming != nil && coming.Header != nil && coming.Header.ProveValue != nil && logger != nil
+//@   ensures [lighter]  old(coming.Header.PreHash != chain.latestBlock.Hash && coming.Header.TotalQN < chain.latestBlock.TotalQN) ==> chain.latestBlock == old(chain.latestBlock) && result != types.AddBlockSucc
